@@ -69,6 +69,19 @@ CHECKS = {
         'quick': {'shards': 16, 'timeout': 600},
         'thorough': {'shards': 16, 'timeout': 3600},
     },
+    'C03': {
+        'pkg': 'internal/multiplex', 'test': 'TestVerif_C03', 'level': 'exploration',
+        'technique': 'runtime monitor: prefix/complete-then-error oracle on both ends of real session pairs, closing notice placed by a router that decodes the wire, parked readers decided by synctest quiescence plus 10 virtual minutes',
+        'level_text': 'Two real sessions over 1..8 connections (and singleplex); one side writes B (0 bytes to several frames) and closes, or both close; the router recognises the closing record with the reference codec and delivers it before, between or after '
+                      'the data on other connections; oracle: the non-closing side reads exactly B then the broken-stream error, closers read a prefix, no reader is parked after 10 virtual minutes, writes fail after a local or processed close, '
+                      'bytes that had arrived stay readable after a local Close.',
+        'level_note': 'Assumes ' + A_RACE + ' and ' + A_HARNESS + '. Placement of the closing notice is sampled per policy (Cloak picks connections at random), not enumerated.',
+        'rule': 'case = (method, NumConn, closing side opener/acceptor/both, write sizes before close, router policy close-first/close-last/random/lifo/starve, segmentation, late reader, parked local reader); '
+                'distinct = hash of the case; non-trivial = a close was issued and the other end was judged at quiescence',
+        'assumptions': [A_RACE, A_HARNESS],
+        'quick': {'shards': 16, 'timeout': 600},
+        'thorough': {'shards': 16, 'timeout': 3600},
+    },
 }
 
 NOT_APPLICABLE = {p: 'check not built yet in this round (the design in DESIGN.md section 3 applies; runtime monitoring can decide it)'
